@@ -26,8 +26,11 @@ def _bounded_worker(args):
 
 
 def run_bounded(prop, tier, seed, only=None):
-    from .bounded import load_all, common
+    from .bounded import load_all, common, LOAD_ERRORS
     load_all()
+    for mod, tb in LOAD_ERRORS.items():
+        if mod[1:3] == prop[1:3]:
+            raise RuntimeError("bounded module %s failed to import:\n%s" % (mod, tb))
     clauses = [c.name for c in common.BY_PROP.get(prop, [])]
     if only:
         clauses = [c for c in clauses if c in only]
